@@ -211,6 +211,20 @@ func RunPolicyCase(cs map[string]any, id int, seed int64) Result {
 		i := rng.Intn(15)
 		minTee[i]++
 		minTee[i+1+rng.Intn(15-i)]--
+	case "above0Below1": // the first two components (module minor / major) in opposite directions
+		minTee = cp(tee)
+		minTee[0]++
+		minTee[1]--
+	case "below0Above1":
+		minTee = cp(tee)
+		minTee[0]--
+		minTee[1]++
+	case "aboveOnlyLastBelowRest": // every component but the last is above its minimum
+		minTee = cp(tee)
+		for i := 0; i < 15; i++ {
+			minTee[i]--
+		}
+		minTee[15]++
 	case "len1":
 		minTee = cp(tee[:1])
 	case "len15":
